@@ -154,7 +154,10 @@ def readers(ctx, r, v, ref, hist, lines, expect, speclines, meta, errcls):
 
 def state(v):
     i2l, l2i, stop = v.__reduce__()[2][:3]
-    items = ','.join(f'{i}={lab(i2l[i])}' for i in sorted(i2l, key=lambda k: (not isinstance(k, int), k if isinstance(k, int) else 0, repr(k))))
+    # a key of _index_to_label may be an alias object of the index (`idx = self._label_to_index.pop(old, old)` with an alias `old`)
+    def ik(k):
+        return int(k) if isinstance(k, (int, float, np.integer, np.floating)) and float(k).is_integer() else k
+    items = ','.join(f'{ik(i)}={lab(i2l[i])}' for i in sorted(i2l, key=lambda k: (not isinstance(ik(k), int), ik(k) if isinstance(ik(k), int) else 0, repr(k))))
     return ';'.join([','.join(lab(x) for x in v), items, str(len(l2i)), str(stop)])
 
 
@@ -333,7 +336,7 @@ def alias_cases(ctx, r, lines, expect, speclines, meta):
     for _ in range(ctx.scale(300, 3000)):
         v = Variables(); ref = []; toks = []; flags = ''; code = ['import numpy as np', 'from numpy import *', 'from dimod.variables import Variables', 'v = Variables()']
         for _ in range(r.randint(1, 10)):
-            k = r.choice(['+', '+', '?', '?', '~', 'p', 'r', 'c'] if ref else ['+', '?', '~', 'p'])
+            k = r.choice(['+', '+', '?', '?', '~', 'p', 'r', 'c', 'x', 'R', 'R', 'R'] if ref else ['+', '?', '~', 'p', 'x', 'R'])
             ok = True
             try:
                 if k in '+?':
@@ -354,6 +357,30 @@ def alias_cases(ctx, r, lines, expect, speclines, meta):
                     if ref:
                         ref.pop()
                     v._pop()
+                elif k == 'x':
+                    o = r.choice(flat) if r.random() < .4 or not ref else r.choice([x for x in flat if canon_py(x) == r.choice(ref)] or flat)
+                    toks.append('x' + pk(o)); code.append(f'try: v._remove({o!r})\nexcept ValueError: pass')
+                    want = canon_py(o) in ref
+                    if want:
+                        ref.remove(canon_py(o))
+                    v._remove(o)
+                elif k == 'R':
+                    # mapping over objects: keys / values are aliases of current labels, other objects, swaps and cycles
+                    cur = list(v)
+                    ks = [r.choice([x for x in flat if canon_py(x) == canon_py(c)] or [c]) for c in r.sample(cur, min(len(cur), r.randint(0, 3)))]
+                    ks += [r.choice(flat) for _ in range(r.randint(0, 2))]
+                    if r.random() < .4 and len(ks) > 1:
+                        mp = {ks[i]: r.choice([x for x in flat if canon_py(x) == canon_py(ks[(i + 1) % len(ks)])]) for i in range(len(ks))}
+                    else:
+                        mp = {a: r.choice(flat) for a in ks}
+                    toks.append('R:' + '|'.join(f'{pk(a)}>{pk(b)}' for a, b in mp.items()))
+                    code.append(f'try: v._relabel({mp!r})\nexcept ValueError: pass')
+                    cm = {canon_py(a): canon_py(b) for a, b in mp.items()}
+                    news = list(cm.values())
+                    want = len(set(news)) == len(news) and all(not (n in ref and n not in cm) for n in news)
+                    if want:
+                        ref = [cm.get(x, x) for x in ref]
+                    v._relabel(mp)
                 elif k == 'r':
                     toks.append('r'); code.append('v._relabel_as_integers()'); ref = [('i', i) for i in range(len(ref))]; want = True; v._relabel_as_integers()
                 else:
